@@ -5,6 +5,7 @@ func init() {
 		ID: "C06",
 		Rules: []RuleSpec{
 			{"err-discipline", "no error returned by a function of the module is discarded (called as a statement or assigned to _) in block acceptance (pkg/core, dao, block), except at the tabled sites whose reason is recorded: a dropped error is a dropped check or a lost write", func(c *Ctx) { ruleErrDiscipline(c, "pkg/core", "pkg/core/dao", "pkg/core/block") }},
+			{"loop-memo", "a local initialised once inside a loop (if v == nil { v = ... }) and reused by later iterations is not derived from a variable the loop body changes between iterations (a key buffer rewritten per element, a cursor): later iterations would reuse what the first one saw", func(c *Ctx) { ruleLoopMemo(c, "pkg/core", "pkg/core/dao", "pkg/core/block") }},
 			{"enum-switch", "every switch over a module enumeration (named integer type with at least three constants) has a default clause or names every kind: no kind falls through a default-less switch silently", func(c *Ctx) { ruleEnumSwitch(c, "pkg/core", "pkg/core/dao", "pkg/core/block") }},
 			{"loop-accumulator", "a boolean that summarises a loop (some element needs X / all elements satisfy Y) and is read after it is accumulated monotonically - set to a constant, combined with its previous value, assigned under a test of itself, or followed by leaving the loop - never overwritten by the value computed for the current element only", func(c *Ctx) { ruleLoopAccumulator(c, "pkg/core", "pkg/core/dao", "pkg/core/block") }},
 			{"commit-point", "no error exit of storeBlock is reachable after the PersistPrivate publish (one tabled exception), and the publish is gated by the MPT update and the storing goroutine's outcome", ruleCommitPoint},
@@ -16,6 +17,7 @@ func init() {
 		ID: "C04",
 		Rules: []RuleSpec{
 			{"err-discipline", "no error returned by a function of the module is discarded (called as a statement or assigned to _) in the interop layer and the natives, except at the tabled sites whose reason is recorded: a dropped error is a dropped check or a lost write", func(c *Ctx) { ruleErrDiscipline(c, "pkg/core/interop", "pkg/core/interop/contract", "pkg/core/interop/storage", "pkg/core/native") }},
+			{"loop-memo", "a local initialised once inside a loop (if v == nil { v = ... }) and reused by later iterations is not derived from a variable the loop body changes between iterations (a key buffer rewritten per element, a cursor): later iterations would reuse what the first one saw", func(c *Ctx) { ruleLoopMemo(c, "pkg/core/interop", "pkg/core/interop/contract", "pkg/core/interop/storage", "pkg/core/native") }},
 			{"enum-switch", "every switch over a module enumeration (named integer type with at least three constants) has a default clause or names every kind: no kind falls through a default-less switch silently", func(c *Ctx) { ruleEnumSwitch(c, "pkg/core/interop", "pkg/core/interop/contract", "pkg/core/interop/storage", "pkg/core/native") }},
 			{"loop-accumulator", "a boolean that summarises a loop (some element needs X / all elements satisfy Y) and is read after it is accumulated monotonically - set to a constant, combined with its previous value, assigned under a test of itself, or followed by leaving the loop - never overwritten by the value computed for the current element only", func(c *Ctx) { ruleLoopAccumulator(c, "pkg/core/interop", "pkg/core/interop/contract", "pkg/core/interop/storage", "pkg/core/native") }},
 			{"tx-commit-guard", "the per-transaction DAO layer is persisted only on the non-fault branch, it is the private layer of a context created for that transaction, and OnPersist/PostPersist persist only after a successful Exec", ruleTxCommitGuard},
@@ -33,6 +35,7 @@ func init() {
 			{"limit-coherence", "the trie's key and value limits (enforced on its read paths only) cover what contract storage accepts on the write path: 4-byte contract id + MaxStorageKeyLen, MaxStorageValueLen", ruleLimitCoherence},
 			{"value-absence", "in package mpt a []byte that becomes a leaf value is never tested for absence by its length (nil means absent, an empty value is a stored value)", ruleValueAbsence},
 			{"err-discipline", "no error returned by a function of the module is discarded (called as a statement or assigned to _) in the trie and state-root packages, except at the tabled sites whose reason is recorded: a dropped error is a dropped check or a lost write", func(c *Ctx) { ruleErrDiscipline(c, "pkg/core/mpt", "pkg/core/stateroot") }},
+			{"loop-memo", "a local initialised once inside a loop (if v == nil { v = ... }) and reused by later iterations is not derived from a variable the loop body changes between iterations (a key buffer rewritten per element, a cursor): later iterations would reuse what the first one saw", func(c *Ctx) { ruleLoopMemo(c, "pkg/core/mpt", "pkg/core/stateroot") }},
 			{"enum-switch", "every switch over a module enumeration (named integer type with at least three constants) has a default clause or names every kind: no kind falls through a default-less switch silently", func(c *Ctx) { ruleEnumSwitch(c, "pkg/core/mpt", "pkg/core/stateroot") }},
 			{"loop-accumulator", "a boolean that summarises a loop (some element needs X / all elements satisfy Y) and is read after it is accumulated monotonically - set to a constant, combined with its previous value, assigned under a test of itself, or followed by leaving the loop - never overwritten by the value computed for the current element only", func(c *Ctx) { ruleLoopAccumulator(c, "pkg/core/mpt", "pkg/core/stateroot") }},
 			{"proof-key", "VerifyProof walks from NewHashNode(root) over a store of its own in strict mode, and stores every proof element under the double-SHA256 of that very element", ruleProofKey},
@@ -47,6 +50,7 @@ func init() {
 		ID: "C02",
 		Rules: []RuleSpec{
 			{"err-discipline", "no error returned by a function of the module is discarded (called as a statement or assigned to _) in the ledger, its DAO and the stores, except at the tabled sites whose reason is recorded: a dropped error is a dropped check or a lost write", func(c *Ctx) { ruleErrDiscipline(c, "pkg/core", "pkg/core/dao", "pkg/core/storage") }},
+			{"loop-memo", "a local initialised once inside a loop (if v == nil { v = ... }) and reused by later iterations is not derived from a variable the loop body changes between iterations (a key buffer rewritten per element, a cursor): later iterations would reuse what the first one saw", func(c *Ctx) { ruleLoopMemo(c, "pkg/core", "pkg/core/dao", "pkg/core/storage") }},
 			{"enum-switch", "every switch over a module enumeration (named integer type with at least three constants) has a default clause or names every kind: no kind falls through a default-less switch silently", func(c *Ctx) { ruleEnumSwitch(c, "pkg/core", "pkg/core/dao", "pkg/core/storage") }},
 			{"loop-accumulator", "a boolean that summarises a loop (some element needs X / all elements satisfy Y) and is read after it is accumulated monotonically - set to a constant, combined with its previous value, assigned under a test of itself, or followed by leaving the loop - never overwritten by the value computed for the current element only", func(c *Ctx) { ruleLoopAccumulator(c, "pkg/core", "pkg/core/dao", "pkg/core/storage") }},
 			{"stage-machine", "reset and jump are well-formed stage machines: unknown stage is an error; each stage ends by recording the label of the next clause as its last write and persists that layer before falling through; no value captured before the switch from a field a stage changes is used after that stage; the tail removes the marker; start-up resumes from it", ruleStageMachine},
@@ -62,6 +66,7 @@ func init() {
 		ID: "C20",
 		Rules: []RuleSpec{
 			{"err-discipline", "no error returned by a function of the module is discarded (called as a statement or assigned to _) in state sync and the block queue, except at the tabled sites whose reason is recorded: a dropped error is a dropped check or a lost write", func(c *Ctx) { ruleErrDiscipline(c, "pkg/core/statesync", "pkg/network/bqueue") }},
+			{"loop-memo", "a local initialised once inside a loop (if v == nil { v = ... }) and reused by later iterations is not derived from a variable the loop body changes between iterations (a key buffer rewritten per element, a cursor): later iterations would reuse what the first one saw", func(c *Ctx) { ruleLoopMemo(c, "pkg/core/statesync", "pkg/network/bqueue") }},
 			{"enum-switch", "every switch over a module enumeration (named integer type with at least three constants) has a default clause or names every kind: no kind falls through a default-less switch silently", func(c *Ctx) { ruleEnumSwitch(c, "pkg/core/statesync", "pkg/network/bqueue") }},
 			{"loop-accumulator", "a boolean that summarises a loop (some element needs X / all elements satisfy Y) and is read after it is accumulated monotonically - set to a constant, combined with its previous value, assigned under a test of itself, or followed by leaving the loop - never overwritten by the value computed for the current element only", func(c *Ctx) { ruleLoopAccumulator(c, "pkg/core/statesync", "pkg/network/bqueue") }},
 			{"lock-pairing", "in pkg/network/bqueue and pkg/core/statesync every mutex acquired is released on every exit (defer-aware, boolean-correlated; the hand-unlocked Blocking branch of Queue.Put included)", func(c *Ctx) { lockPairingPkgs(c, []string{"pkg/network/bqueue", "pkg/core/statesync"}, nil, 10) }},
@@ -76,6 +81,7 @@ func init() {
 		ID: "C12",
 		Rules: []RuleSpec{
 			{"err-discipline", "no error returned by a function of the module is discarded (called as a statement or assigned to _) in the VM, except at the tabled sites whose reason is recorded: a dropped error is a dropped check or a lost write", func(c *Ctx) { ruleErrDiscipline(c, "pkg/vm", "pkg/vm/stackitem") }},
+			{"loop-memo", "a local initialised once inside a loop (if v == nil { v = ... }) and reused by later iterations is not derived from a variable the loop body changes between iterations (a key buffer rewritten per element, a cursor): later iterations would reuse what the first one saw", func(c *Ctx) { ruleLoopMemo(c, "pkg/vm", "pkg/vm/stackitem") }},
 			{"enum-switch", "every switch over a module enumeration (named integer type with at least three constants) has a default clause or names every kind: no kind falls through a default-less switch silently", func(c *Ctx) { ruleEnumSwitch(c, "pkg/vm", "pkg/vm/stackitem") }},
 			{"loop-accumulator", "a boolean that summarises a loop (some element needs X / all elements satisfy Y) and is read after it is accumulated monotonically - set to a constant, combined with its previous value, assigned under a test of itself, or followed by leaving the loop - never overwritten by the value computed for the current element only", func(c *Ctx) { ruleLoopAccumulator(c, "pkg/vm", "pkg/vm/stackitem") }},
 			{"opcode-tables", "every Opcode constant is valid in the decoder table, dispatched by vm.execute (arm or PUSHINT range test, faulting default), priced in fee.coefficients, and operand usage agrees between decoder and dispatcher", ruleOpcodeTables},
@@ -93,6 +99,7 @@ func init() {
 		ID: "C13",
 		Rules: []RuleSpec{
 			{"err-discipline", "no error returned by a function of the module is discarded (called as a statement or assigned to _) in the VM, except at the tabled sites whose reason is recorded: a dropped error is a dropped check or a lost write", func(c *Ctx) { ruleErrDiscipline(c, "pkg/vm", "pkg/vm/stackitem") }},
+			{"loop-memo", "a local initialised once inside a loop (if v == nil { v = ... }) and reused by later iterations is not derived from a variable the loop body changes between iterations (a key buffer rewritten per element, a cursor): later iterations would reuse what the first one saw", func(c *Ctx) { ruleLoopMemo(c, "pkg/vm", "pkg/vm/stackitem") }},
 			{"enum-switch", "every switch over a module enumeration (named integer type with at least three constants) has a default clause or names every kind: no kind falls through a default-less switch silently", func(c *Ctx) { ruleEnumSwitch(c, "pkg/vm", "pkg/vm/stackitem") }},
 			{"loop-accumulator", "a boolean that summarises a loop (some element needs X / all elements satisfy Y) and is read after it is accumulated monotonically - set to a constant, combined with its previous value, assigned under a test of itself, or followed by leaving the loop - never overwritten by the value computed for the current element only", func(c *Ctx) { ruleLoopAccumulator(c, "pkg/vm", "pkg/vm/stackitem") }},
 			{"opcode-tables", "every Opcode constant is valid in the decoder table, dispatched by vm.execute (arm or PUSHINT range test, faulting default), priced in fee.coefficients, and operand usage agrees between decoder and dispatcher", ruleOpcodeTables},
@@ -106,6 +113,7 @@ func init() {
 		ID: "C16",
 		Rules: []RuleSpec{
 			{"err-discipline", "no error returned by a function of the module is discarded (called as a statement or assigned to _) in manifests and contract calls, except at the tabled sites whose reason is recorded: a dropped error is a dropped check or a lost write", func(c *Ctx) { ruleErrDiscipline(c, "pkg/smartcontract/manifest", "pkg/core/interop/contract", "pkg/core/interop") }},
+			{"loop-memo", "a local initialised once inside a loop (if v == nil { v = ... }) and reused by later iterations is not derived from a variable the loop body changes between iterations (a key buffer rewritten per element, a cursor): later iterations would reuse what the first one saw", func(c *Ctx) { ruleLoopMemo(c, "pkg/smartcontract/manifest", "pkg/core/interop/contract", "pkg/core/interop") }},
 			{"enum-switch", "every switch over a module enumeration (named integer type with at least three constants) has a default clause or names every kind: no kind falls through a default-less switch silently", func(c *Ctx) { ruleEnumSwitch(c, "pkg/smartcontract/manifest", "pkg/core/interop/contract", "pkg/core/interop") }},
 			{"loop-accumulator", "a boolean that summarises a loop (some element needs X / all elements satisfy Y) and is read after it is accumulated monotonically - set to a constant, combined with its previous value, assigned under a test of itself, or followed by leaving the loop - never overwritten by the value computed for the current element only", func(c *Ctx) { ruleLoopAccumulator(c, "pkg/smartcontract/manifest", "pkg/core/interop/contract", "pkg/core/interop") }},
 			{"flags-effects", "for every system call and native-method registration the effects of the handler over the module-restricted call graph (contract-storage write, notification, script load) are covered by the declared required flags (legacy superseded registrations and the payment callback tabled)", ruleFlagsEffects},
@@ -120,6 +128,7 @@ func init() {
 		ID: "C15",
 		Rules: []RuleSpec{
 			{"err-discipline", "no error returned by a function of the module is discarded (called as a statement or assigned to _) in witness checking, except at the tabled sites whose reason is recorded: a dropped error is a dropped check or a lost write", func(c *Ctx) { ruleErrDiscipline(c, "pkg/core/interop/runtime", "pkg/core/transaction") }},
+			{"loop-memo", "a local initialised once inside a loop (if v == nil { v = ... }) and reused by later iterations is not derived from a variable the loop body changes between iterations (a key buffer rewritten per element, a cursor): later iterations would reuse what the first one saw", func(c *Ctx) { ruleLoopMemo(c, "pkg/core/interop/runtime", "pkg/core/transaction") }},
 			{"enum-switch", "every switch over a module enumeration (named integer type with at least three constants) has a default clause or names every kind: no kind falls through a default-less switch silently", func(c *Ctx) { ruleEnumSwitch(c, "pkg/core/interop/runtime", "pkg/core/transaction") }},
 			{"loop-accumulator", "a boolean that summarises a loop (some element needs X / all elements satisfy Y) and is read after it is accumulated monotonically - set to a constant, combined with its previous value, assigned under a test of itself, or followed by leaving the loop - never overwritten by the value computed for the current element only", func(c *Ctx) { ruleLoopAccumulator(c, "pkg/core/interop/runtime", "pkg/core/transaction") }},
 			{"cond-tables", "each witness-condition kind is reported by exactly one type; the binary, stack-item and JSON decoders have an arm for every kind constructing that type, reject unknown kinds, and recurse with a strictly decreasing, tested depth", ruleCondTables},
@@ -131,6 +140,7 @@ func init() {
 		ID: "C09",
 		Rules: []RuleSpec{
 			{"err-discipline", "no error returned by a function of the module is discarded (called as a statement or assigned to _) in the stores and the DAO, except at the tabled sites whose reason is recorded: a dropped error is a dropped check or a lost write", func(c *Ctx) { ruleErrDiscipline(c, "pkg/core/storage", "pkg/core/dao") }},
+			{"loop-memo", "a local initialised once inside a loop (if v == nil { v = ... }) and reused by later iterations is not derived from a variable the loop body changes between iterations (a key buffer rewritten per element, a cursor): later iterations would reuse what the first one saw", func(c *Ctx) { ruleLoopMemo(c, "pkg/core/storage", "pkg/core/dao") }},
 			{"enum-switch", "every switch over a module enumeration (named integer type with at least three constants) has a default clause or names every kind: no kind falls through a default-less switch silently", func(c *Ctx) { ruleEnumSwitch(c, "pkg/core/storage", "pkg/core/dao") }},
 			{"loop-accumulator", "a boolean that summarises a loop (some element needs X / all elements satisfy Y) and is read after it is accumulated monotonically - set to a constant, combined with its previous value, assigned under a test of itself, or followed by leaving the loop - never overwritten by the value computed for the current element only", func(c *Ctx) { ruleLoopAccumulator(c, "pkg/core/storage", "pkg/core/dao") }},
 			{"lock-pairing", "in pkg/core/storage every mutex acquired is released on every exit (conditional wrappers analysed for shared stores; the isSync-correlated unlock/relock of persist included)", func(c *Ctx) { lockPairingPkgs(c, []string{stPkg}, storageAssume, 10) }},
@@ -148,6 +158,7 @@ func init() {
 		ID: "C01",
 		Rules: []RuleSpec{
 			{"err-discipline", "no error returned by a function of the module is discarded (called as a statement or assigned to _) in the native contracts, except at the tabled sites whose reason is recorded: a dropped error is a dropped check or a lost write", func(c *Ctx) { ruleErrDiscipline(c, "pkg/core/native", "pkg/core/state") }},
+			{"loop-memo", "a local initialised once inside a loop (if v == nil { v = ... }) and reused by later iterations is not derived from a variable the loop body changes between iterations (a key buffer rewritten per element, a cursor): later iterations would reuse what the first one saw", func(c *Ctx) { ruleLoopMemo(c, "pkg/core/native", "pkg/core/state") }},
 			{"enum-switch", "every switch over a module enumeration (named integer type with at least three constants) has a default clause or names every kind: no kind falls through a default-less switch silently", func(c *Ctx) { ruleEnumSwitch(c, "pkg/core/native", "pkg/core/state") }},
 			{"loop-accumulator", "a boolean that summarises a loop (some element needs X / all elements satisfy Y) and is read after it is accumulated monotonically - set to a constant, combined with its previous value, assigned under a test of itself, or followed by leaving the loop - never overwritten by the value computed for the current element only", func(c *Ctx) { ruleLoopAccumulator(c, "pkg/core/native", "pkg/core/state") }},
 			{"cache-ro", "no write (field, element, delete/clear/copy, or through a parameter-mutating callee) through a native cache obtained with GetROCache, on any path (isCacheRW idiom handled by boolean correlation)", ruleCacheRO},
@@ -170,6 +181,7 @@ func init() {
 			{"limit-coherence", "the trie's key and value limits (enforced on its read paths only) cover what contract storage accepts on the write path: 4-byte contract id + MaxStorageKeyLen, MaxStorageValueLen", ruleLimitCoherence},
 			{"value-absence", "in package mpt a []byte that becomes a leaf value is never tested for absence by its length (nil means absent, an empty value is a stored value)", ruleValueAbsence},
 			{"err-discipline", "no error returned by a function of the module is discarded (called as a statement or assigned to _) in package mpt, except at the tabled sites whose reason is recorded: a dropped error is a dropped check or a lost write", func(c *Ctx) { ruleErrDiscipline(c, "pkg/core/mpt") }},
+			{"loop-memo", "a local initialised once inside a loop (if v == nil { v = ... }) and reused by later iterations is not derived from a variable the loop body changes between iterations (a key buffer rewritten per element, a cursor): later iterations would reuse what the first one saw", func(c *Ctx) { ruleLoopMemo(c, "pkg/core/mpt") }},
 			{"enum-switch", "every switch over a module enumeration (named integer type with at least three constants) has a default clause or names every kind: no kind falls through a default-less switch silently", func(c *Ctx) { ruleEnumSwitch(c, "pkg/core/mpt") }},
 			{"loop-accumulator", "a boolean that summarises a loop (some element needs X / all elements satisfy Y) and is read after it is accumulated monotonically - set to a constant, combined with its previous value, assigned under a test of itself, or followed by leaving the loop - never overwritten by the value computed for the current element only", func(c *Ctx) { ruleLoopAccumulator(c, "pkg/core/mpt") }},
 			{"proof-key", "VerifyProof walks from NewHashNode(root) over a store of its own in strict mode, and stores every proof element under the double-SHA256 of that very element", ruleProofKey},
@@ -185,6 +197,7 @@ func init() {
 		ID: "C11",
 		Rules: []RuleSpec{
 			{"err-discipline", "no error returned by a function of the module is discarded (called as a statement or assigned to _) in the trie and state-root packages, except at the tabled sites whose reason is recorded: a dropped error is a dropped check or a lost write", func(c *Ctx) { ruleErrDiscipline(c, "pkg/core/mpt", "pkg/core/stateroot") }},
+			{"loop-memo", "a local initialised once inside a loop (if v == nil { v = ... }) and reused by later iterations is not derived from a variable the loop body changes between iterations (a key buffer rewritten per element, a cursor): later iterations would reuse what the first one saw", func(c *Ctx) { ruleLoopMemo(c, "pkg/core/mpt", "pkg/core/stateroot") }},
 			{"enum-switch", "every switch over a module enumeration (named integer type with at least three constants) has a default clause or names every kind: no kind falls through a default-less switch silently", func(c *Ctx) { ruleEnumSwitch(c, "pkg/core/mpt", "pkg/core/stateroot") }},
 			{"loop-accumulator", "a boolean that summarises a loop (some element needs X / all elements satisfy Y) and is read after it is accumulated monotonically - set to a constant, combined with its previous value, assigned under a test of itself, or followed by leaving the loop - never overwritten by the value computed for the current element only", func(c *Ctx) { ruleLoopAccumulator(c, "pkg/core/mpt", "pkg/core/stateroot") }},
 			{"mpt-reader", "Trie methods read node records only through the mode-aware getFromStore, which reports inactive records as (nil, not found); the reference-count suffix is written and read in one format", ruleMPTReader},
@@ -198,6 +211,7 @@ func init() {
 		ID: "C05",
 		Rules: []RuleSpec{
 			{"err-discipline", "no error returned by a function of the module is discarded (called as a statement or assigned to _) in the native contracts, except at the tabled sites whose reason is recorded: a dropped error is a dropped check or a lost write", func(c *Ctx) { ruleErrDiscipline(c, "pkg/core/native", "pkg/core/state") }},
+			{"loop-memo", "a local initialised once inside a loop (if v == nil { v = ... }) and reused by later iterations is not derived from a variable the loop body changes between iterations (a key buffer rewritten per element, a cursor): later iterations would reuse what the first one saw", func(c *Ctx) { ruleLoopMemo(c, "pkg/core/native", "pkg/core/state") }},
 			{"enum-switch", "every switch over a module enumeration (named integer type with at least three constants) has a default clause or names every kind: no kind falls through a default-less switch silently", func(c *Ctx) { ruleEnumSwitch(c, "pkg/core/native", "pkg/core/state") }},
 			{"loop-accumulator", "a boolean that summarises a loop (some element needs X / all elements satisfy Y) and is read after it is accumulated monotonically - set to a constant, combined with its previous value, assigned under a test of itself, or followed by leaving the loop - never overwritten by the value computed for the current element only", func(c *Ctx) { ruleLoopAccumulator(c, "pkg/core/native", "pkg/core/state") }},
 			{"token-writers", "account balances, total supply, voters count, candidate records and notary deposits are written only by the tabled functions that keep them consistent; saveTotalSupply runs only inside addTokens; a stored candidate record is never replaced by a blank one", ruleTokenWriters},
@@ -209,6 +223,7 @@ func init() {
 		ID: "C19",
 		Rules: []RuleSpec{
 			{"err-discipline", "no error returned by a function of the module is discarded (called as a statement or assigned to _) in the consensus service, except at the tabled sites whose reason is recorded: a dropped error is a dropped check or a lost write", func(c *Ctx) { ruleErrDiscipline(c, "pkg/consensus") }},
+			{"loop-memo", "a local initialised once inside a loop (if v == nil { v = ... }) and reused by later iterations is not derived from a variable the loop body changes between iterations (a key buffer rewritten per element, a cursor): later iterations would reuse what the first one saw", func(c *Ctx) { ruleLoopMemo(c, "pkg/consensus") }},
 			{"enum-switch", "every switch over a module enumeration (named integer type with at least three constants) has a default clause or names every kind: no kind falls through a default-less switch silently", func(c *Ctx) { ruleEnumSwitch(c, "pkg/consensus") }},
 			{"loop-accumulator", "a boolean that summarises a loop (some element needs X / all elements satisfy Y) and is read after it is accumulated monotonically - set to a constant, combined with its previous value, assigned under a test of itself, or followed by leaving the loop - never overwritten by the value computed for the current element only", func(c *Ctx) { ruleLoopAccumulator(c, "pkg/consensus") }},
 			{"proposal-dominators", "verifyBlock accepts only behind the height/timestamp/size/system-fee checks and per-transaction verification; verifyRequest only behind prev-hash/version/state-root/count checks; the block witness takes commits of the current view only, in validator order; the proposed transaction set is cut after (not before) adding the transaction that overflows a limit", ruleProposalDominators},
@@ -220,6 +235,7 @@ func init() {
 		ID: "C17",
 		Rules: []RuleSpec{
 			{"err-discipline", "no error returned by a function of the module is discarded (called as a statement or assigned to _) in the codecs, except at the tabled sites whose reason is recorded: a dropped error is a dropped check or a lost write", func(c *Ctx) { ruleErrDiscipline(c, "pkg/io", "pkg/core/transaction", "pkg/core/block", "pkg/network/payload", "pkg/vm/stackitem", "pkg/core/state") }},
+			{"loop-memo", "a local initialised once inside a loop (if v == nil { v = ... }) and reused by later iterations is not derived from a variable the loop body changes between iterations (a key buffer rewritten per element, a cursor): later iterations would reuse what the first one saw", func(c *Ctx) { ruleLoopMemo(c, "pkg/io", "pkg/core/transaction", "pkg/core/block", "pkg/network/payload", "pkg/vm/stackitem", "pkg/core/state") }},
 			{"enum-switch", "every switch over a module enumeration (named integer type with at least three constants) has a default clause or names every kind: no kind falls through a default-less switch silently", func(c *Ctx) { ruleEnumSwitch(c, "pkg/io", "pkg/core/transaction", "pkg/core/block", "pkg/network/payload", "pkg/vm/stackitem", "pkg/core/state") }},
 			{"loop-accumulator", "a boolean that summarises a loop (some element needs X / all elements satisfy Y) and is read after it is accumulated monotonically - set to a constant, combined with its previous value, assigned under a test of itself, or followed by leaving the loop - never overwritten by the value computed for the current element only", func(c *Ctx) { ruleLoopAccumulator(c, "pkg/io", "pkg/core/transaction", "pkg/core/block", "pkg/network/payload", "pkg/vm/stackitem", "pkg/core/state") }},
 			{"hash-canonical", "every cached identity (hash/size of transaction, header, extensible, notary request) is computed from the node's own encoding, or from received bytes only if the length decoder rejects non-minimal encodings", ruleHashCanonical},
@@ -234,6 +250,7 @@ func init() {
 		ID: "C07",
 		Rules: []RuleSpec{
 			{"err-discipline", "no error returned by a function of the module is discarded (called as a statement or assigned to _) in transaction admission (pkg/core, mempool, transaction, fee), except at the tabled sites whose reason is recorded: a dropped error is a dropped check or a lost write", func(c *Ctx) { ruleErrDiscipline(c, "pkg/core", "pkg/core/mempool", "pkg/core/transaction", "pkg/core/fee") }},
+			{"loop-memo", "a local initialised once inside a loop (if v == nil { v = ... }) and reused by later iterations is not derived from a variable the loop body changes between iterations (a key buffer rewritten per element, a cursor): later iterations would reuse what the first one saw", func(c *Ctx) { ruleLoopMemo(c, "pkg/core", "pkg/core/mempool", "pkg/core/transaction", "pkg/core/fee") }},
 			{"enum-switch", "every switch over a module enumeration (named integer type with at least three constants) has a default clause or names every kind: no kind falls through a default-less switch silently", func(c *Ctx) { ruleEnumSwitch(c, "pkg/core", "pkg/core/mempool", "pkg/core/transaction", "pkg/core/fee") }},
 			{"loop-accumulator", "a boolean that summarises a loop (some element needs X / all elements satisfy Y) and is read after it is accumulated monotonically - set to a constant, combined with its previous value, assigned under a test of itself, or followed by leaving the loop - never overwritten by the value computed for the current element only", func(c *Ctx) { ruleLoopAccumulator(c, "pkg/core", "pkg/core/mempool", "pkg/core/transaction", "pkg/core/fee") }},
 			{"attr-exhaustive", "every attribute kind has an arm in the binary decoder, the encoder and verifyTxAttributes; decoder and encoder reject unknown kinds", ruleAttrExhaustive},
@@ -247,6 +264,7 @@ func init() {
 		ID: "C08",
 		Rules: []RuleSpec{
 			{"err-discipline", "no error returned by a function of the module is discarded (called as a statement or assigned to _) in the mempool, except at the tabled sites whose reason is recorded: a dropped error is a dropped check or a lost write", func(c *Ctx) { ruleErrDiscipline(c, "pkg/core/mempool") }},
+			{"loop-memo", "a local initialised once inside a loop (if v == nil { v = ... }) and reused by later iterations is not derived from a variable the loop body changes between iterations (a key buffer rewritten per element, a cursor): later iterations would reuse what the first one saw", func(c *Ctx) { ruleLoopMemo(c, "pkg/core/mempool") }},
 			{"enum-switch", "every switch over a module enumeration (named integer type with at least three constants) has a default clause or names every kind: no kind falls through a default-less switch silently", func(c *Ctx) { ruleEnumSwitch(c, "pkg/core/mempool") }},
 			{"loop-accumulator", "a boolean that summarises a loop (some element needs X / all elements satisfy Y) and is read after it is accumulated monotonically - set to a constant, combined with its previous value, assigned under a test of itself, or followed by leaving the loop - never overwritten by the value computed for the current element only", func(c *Ctx) { ruleLoopAccumulator(c, "pkg/core/mempool") }},
 			{"lock-pairing", "in pkg/core/mempool every mutex acquired is released on every exit of every function (defer-aware, boolean-correlated), never released unheld, never re-acquired while held", func(c *Ctx) { lockPairingPkgs(c, []string{"pkg/core/mempool"}, nil, 10) }},
